@@ -991,7 +991,17 @@ func c14R5(c *Ctx, r *Report) {
 		resultMerge := map[*ssa.Phi]bool{}
 		var expandRet func(v ssa.Value, blk *ssa.BasicBlock, ret *ssa.Return, depth int)
 		expandRet = func(v ssa.Value, blk *ssa.BasicBlock, ret *ssa.Return, depth int) {
-			if phi, isPhi := v.(*ssa.Phi); isPhi && depth < 4 && !backTarget(wf, phi.Block()) {
+			inLoop := func(b *ssa.BasicBlock) bool {
+				for _, sx := range b.Succs {
+					if reach(sx, nil, nil)[b] {
+						return true
+					}
+				}
+				return false
+			}
+			// a merge inside the walk (the remembered handler joined with the one just found, when the walk leaves
+			// through a break) is the remembered handler, like the merge at the loop head
+			if phi, isPhi := v.(*ssa.Phi); isPhi && depth < 4 && !backTarget(wf, phi.Block()) && !(inLoop(phi.Block()) && !inLoop(ret.Block())) {
 				resultMerge[phi] = true
 				for i, e := range phi.Edges {
 					expandRet(e, phi.Block().Preds[i], ret, depth+1)
@@ -1022,7 +1032,7 @@ func c14R5(c *Ctx, r *Report) {
 					cst, ok := lk.Index.(*ssa.Const)
 					return ok && cst.Value != nil && cst.Value.ExactString() == `"."`
 				}, Holds: false}
-				if miss := guardsMissing(wf, blk, []Guard{rootMissed}); len(miss) > 0 {
+				if miss := guardsMissing(wf, ret.Block(), []Guard{rootMissed}); len(miss) > 0 && len(guardsMissing(wf, blk, []Guard{rootMissed})) > 0 {
 					problems = append(problems, fmt.Sprintf("%s: the handler remembered for a DS query is returned although the root pattern may be registered (the parent must win)", c.pos(ret.Pos())))
 				}
 				continue
